@@ -570,32 +570,56 @@ def mixture_rules(ctx):
                 r3.fail(cons, 'value', 'returns %s, expected %s' % ([p.ret for p in ps], want.pretty()), f, f.node)
     for name, inner in (('xH', 'H'), ('xS', 'S'), ('xCn', 'Cn')):
         f = prog.method('Mixture', name, rel=MIX)
+        fn = prog.normal_form(f)
+        pm = f.params[1]
         ok = False
         lin = Lin()
-        comp = None
-        for st in f.node.body:
-            if isinstance(st, ast.Assign):
-                for n in ast.walk(st.value):
-                    if isinstance(n, ast.Call) and src(n.func) == 'sum':
-                        comp = n
-                lin.exec_stmt(st) if comp is None else None
-            elif isinstance(st, ast.Return):
-                for n in ast.walk(st):
-                    if isinstance(n, ast.Call) and src(n.func) == 'sum':
-                        comp = n
-        if comp is not None and comp.args and isinstance(comp.args[0], (ast.ListComp, ast.GeneratorExp)):
-            c = comp.args[0]
-            g = c.generators[0]
-            if len(c.generators) == 1 and not g.ifs and isinstance(g.target, ast.Tuple) and len(g.target.elts) == 2 \
-                    and src(g.iter) == 'phase_mol':
-                a, b = (e.id for e in g.target.elts)
+        # the summation: sum(<comprehension over the phase-amount pairs>)  or  acc = 0; for phase, mol in pairs: acc += term
+        defs = {}
+        for st in walk_no_nested(fn):
+            if isinstance(st, ast.Assign) and len(st.targets) == 1 and isinstance(st.targets[0], ast.Name):
+                defs.setdefault(st.targets[0].id, []).append(st.value)
+
+        def unwrap(e):
+            while isinstance(e, ast.Call) and isinstance(e.func, ast.Name) and e.func.id in ('tuple', 'list', 'iter') and len(e.args) == 1 and not e.keywords:
+                e = e.args[0]
+            return e
+        # the parameter itself may only be re-bound to a materialised copy of itself (phase_mol = tuple(phase_mol))
+        pm_kept = all(isinstance(unwrap(v), ast.Name) and unwrap(v).id == pm for v in defs.get(pm, []))
+
+        def is_pairs(e, depth=0):
+            """the parameter holding the (phase, amounts) pairs, possibly materialised with tuple()/list()/iter() or kept in a local"""
+            e = unwrap(e)
+            if not isinstance(e, ast.Name):
+                return False
+            if e.id == pm:
+                return pm_kept
+            if depth < 3 and len(defs.get(e.id, [])) == 1:
+                return is_pairs(defs[e.id][0], depth + 1)
+            return False
+        cand = []       # (target, iterable, term)
+        for n in walk_no_nested(fn):
+            if isinstance(n, ast.Call) and src(n.func) == 'sum' and n.args and isinstance(n.args[0], (ast.ListComp, ast.GeneratorExp)) \
+                    and len(n.args[0].generators) == 1 and not n.args[0].generators[0].ifs:
+                g = n.args[0].generators[0]
+                cand.append((g.target, g.iter, n.args[0].elt))
+            if isinstance(n, ast.For) and not n.orelse and len(n.body) == 1 and isinstance(n.body[0], ast.AugAssign) and isinstance(n.body[0].op, ast.Add) \
+                    and isinstance(n.body[0].target, ast.Name):
+                acc = n.body[0].target.id
+                inits = [v for v in defs.get(acc, [])]
+                if inits and all(isinstance(v, ast.Constant) and v.value == 0 for v in inits):
+                    cand.append((n.target, n.iter, n.body[0].value))
+        for st in fn.body:
+            if isinstance(st, ast.Assign) and not any(isinstance(x, ast.Call) and src(x.func) == 'sum' for x in ast.walk(st.value)):
+                lin.exec_stmt(st)
+        if len(cand) == 1:
+            tg, it, term = cand[0]
+            if isinstance(tg, ast.Tuple) and len(tg.elts) == 2 and all(isinstance(e, ast.Name) for e in tg.elts) and is_pairs(it):
+                a, b = (e.id for e in tg.elts)
                 lin.env[a] = Form.atom('phase')
                 lin.env[b] = Form.atom('mol')
-                elt = lin.form(c.elt)
-                if name == 'xCn':
-                    ok = elt == Form.atom('self.Cn(phase, mol, T, P)')
-                else:
-                    ok = elt == Form.atom('self.%s(phase, mol, T, P)' % inner)
+                elt = lin.form(term)
+                ok = elt == Form.atom('self.%s(phase, mol, %s, %s)' % (inner, f.params[2], f.params[3]))
         if ok:
             r3.ok('Mixture.' + name, 'sum over (phase, mol) of self.%s(phase, mol, T, P)' % inner, f)
         else:
